@@ -18,6 +18,7 @@ type SpecVal struct {
 	Cell  *Loc       // a variable held in a location: read at evaluation time
 	IsNil bool
 	Pkg   *types.Package // identifier names a package
+	Tuple *types.Tuple   // result types of a Go call with several results
 }
 
 type SpecEnv struct {
@@ -30,6 +31,8 @@ type SpecEnv struct {
 	bound    map[string]string
 	x        *Exec
 	pkg      *types.Package
+	spkg     *ssa.Package // code lemmas: package whose real functions may be called
+	lemma    bool
 	letDepth int
 }
 
@@ -307,6 +310,13 @@ func (env *SpecEnv) sel(e *SExpr) (SpecVal, error) {
 			return env.constVal(c), nil
 		}
 		return SpecVal{}, fmt.Errorf("%s.%s is not a constant", a.Pkg.Name(), e.Name)
+	}
+	// tuple component of a Go call result: f(x).0
+	if len(a.V.Tuple) > 0 && a.Tuple != nil {
+		var n int
+		if _, err := fmt.Sscanf(e.Name, "%d", &n); err == nil && n < len(a.V.Tuple) {
+			return SpecVal{V: a.V.Tuple[n], Go: a.Tuple.At(n).Type()}, nil
+		}
 	}
 	// result.N
 	if e.Args[0].Kind == SIdent && e.Args[0].Name == "result" && len(a.V.Tuple) > 0 {
@@ -631,6 +641,31 @@ func (env *SpecEnv) call(e *SExpr) (SpecVal, error) {
 			return SpecVal{}, fmt.Errorf("strlist: length not statically known")
 		}
 		return sv(l), nil
+	}
+	// code lemmas: a call of a real function of the package (executed from its SSA,
+	// or replaced by its contract when it has one)
+	if env.lemma && env.spkg != nil {
+		if f := env.spkg.Func(e.Name); f != nil && f.Blocks != nil {
+			var vals []Val
+			for _, a := range args {
+				if a.Cell != nil {
+					vals = append(vals, tv(env.term(a)))
+				} else {
+					vals = append(vals, a.V)
+				}
+			}
+			var out Val
+			x.reach = "true"
+			x.callFunction(f, nil, vals, nil, func(v Val) { out = v }, f.Pos())
+			res := f.Signature.Results()
+			switch res.Len() {
+			case 0:
+				return SpecVal{}, fmt.Errorf("%s returns nothing", e.Name)
+			case 1:
+				return SpecVal{V: out, Go: res.At(0).Type()}, nil
+			}
+			return SpecVal{V: out, Tuple: res}, nil
+		}
 	}
 	var ts []string
 	for _, a := range args {
